@@ -389,6 +389,8 @@ def known(inp, out):
     # F23: the 1-based atom index 0 of a block interaction is read as the last atom (Python's negative index)
     if inp['kind'] == 'fault' and inp['fault'] == 'index_zero' and 'loaded without an error' in (out.get('msg') or ''):
         return 'F23'
+    if inp['kind'] in ('ff', 'fault') and 'section is unknown' in (out.get('msg') or '') and "'settle'" in (out.get('msg') or ''):
+        return 'F33'
     if inp['kind'] == 'line' and out.get('line') is not None and any(t.strip('0') == '' for t in inp['tokens'] if t.isdigit()):
         return 'F23'
     return None
